@@ -22,45 +22,12 @@
 (* lines of a multi-line usage are indented to the usage column; the       *)
 (* default is shown unless it is the type's zero text, quoted for strings. *)
 (***************************************************************************)
-EXTENDS Integers, Sequences, TLC, Json
-
-Lower(c) == IF c \in 65..90 THEN c + 32 ELSE c
-DigitVal(c) == LET l == Lower(c) IN IF c \in 48..57 THEN c - 48 ELSE IF l \in 97..122 THEN l - 87 ELSE 0 - 1
-US == 95
-Err == [ok |-> FALSE, v |-> 0]
-
-\* digit {[_] digit} from position i; lead = an underscore may come first (after a base prefix or the octal 0)
-RECURSIVE DigitsFrom(_, _, _, _, _, _)
-DigitsFrom(s, i, base, acc, prev, any) ==     \* prev: "d" digit (or prefix), "u" underscore, "n" nothing yet and no underscore allowed
-  IF i > Len(s) THEN (IF any /\ prev = "d" THEN [ok |-> TRUE, v |-> acc] ELSE Err)
-  ELSE IF s[i] = US THEN (IF prev = "d" THEN DigitsFrom(s, i + 1, base, acc, "u", any) ELSE Err)
-  ELSE LET d == DigitVal(s[i]) IN
-       IF d < 0 \/ d >= base THEN Err ELSE DigitsFrom(s, i + 1, base, acc * base + d, "d", TRUE)
-
-IntBody(b) ==
-  IF b = <<>> THEN Err
-  ELSE IF b = <<48>> THEN [ok |-> TRUE, v |-> 0]
-  ELSE IF b[1] = 48 THEN
-       LET p == Lower(b[2]) IN
-       IF p = 98 THEN DigitsFrom(b, 3, 2, 0, "d", FALSE)
-       ELSE IF p = 111 THEN DigitsFrom(b, 3, 8, 0, "d", FALSE)
-       ELSE IF p = 120 THEN DigitsFrom(b, 3, 16, 0, "d", FALSE)
-       ELSE DigitsFrom(b, 2, 8, 0, "d", FALSE)
-  ELSE IF b[1] \in 49..57 THEN DigitsFrom(b, 1, 10, 0, "n", FALSE)
-  ELSE Err
-
-From(s, i) == IF i > Len(s) THEN <<>> ELSE SubSeq(s, i, Len(s))
-IntLit(s, signed) ==
-  IF s = <<>> THEN [ok |-> TRUE, v |-> 0]
-  ELSE IF s[1] \in {43, 45} THEN
-       (IF ~signed THEN Err
-        ELSE LET r == IntBody(From(s, 2)) IN IF r.ok /\ s[1] = 45 THEN [ok |-> TRUE, v |-> 0 - r.v] ELSE r)
-  ELSE IntBody(s)
+EXTENDS GoLit, TLC, Json
 
 TrueTexts  == { <<49>>, <<116>>, <<84>>, <<84, 82, 85, 69>>, <<116, 114, 117, 101>>, <<84, 114, 117, 101>> }
 FalseTexts == { <<48>>, <<102>>, <<70>>, <<70, 65, 76, 83, 69>>, <<102, 97, 108, 115, 101>>, <<70, 97, 108, 115, 101>> }
 BoolLit(s) == IF s = <<>> \/ s \in FalseTexts THEN [ok |-> TRUE, v |-> 0]
-              ELSE IF s \in TrueTexts THEN [ok |-> TRUE, v |-> 1] ELSE Err
+              ELSE IF s \in TrueTexts THEN [ok |-> TRUE, v |-> 1] ELSE LitErr
 
 Lit(ty, s) == CASE ty = "bool" -> BoolLit(s)
                 [] ty \in {"int", "int64"} -> IntLit(s, TRUE)
